@@ -98,14 +98,18 @@ fn tok_int(t: &[u8]) -> i64 {
 fn is_blank(c: u8) -> bool {
     c == b' ' || c == b'\t'
 }
-/// blank-separated tokens; a sign standing alone is joined with the number
-/// after it
-fn split_tokens(line: &[u8]) -> Vec<Vec<u8>> {
+/// blank-separated tokens; where edges are listed (`join_sign`), a sign
+/// standing alone is joined with the number after it
+fn split_tokens(line: &[u8], join_sign: bool) -> Vec<Vec<u8>> {
     let raw: Vec<&[u8]> = line.split(|&c| is_blank(c)).filter(|t| !t.is_empty()).collect();
     let mut out: Vec<Vec<u8>> = Vec::new();
     let mut i = 0;
     while i < raw.len() {
-        if raw[i] == b"-" && i + 1 < raw.len() && raw[i + 1].iter().all(|c| c.is_ascii_digit()) {
+        if join_sign
+            && raw[i] == b"-"
+            && i + 1 < raw.len()
+            && raw[i + 1].iter().all(|c| c.is_ascii_digit())
+        {
             let mut t = b"-".to_vec();
             t.extend_from_slice(raw[i + 1]);
             out.push(t);
@@ -163,7 +167,7 @@ fn tokenise(bytes: &[u8]) -> Value {
         if key == b".mode" {
             mode = lossy(value);
         }
-        let toks = split_tokens(value);
+        let toks = split_tokens(value, key == b".rootids");
         hdr.push(json!({
             "k": lossy(key),
             "v": bytes_json(value),
@@ -209,7 +213,7 @@ fn tokenise(bytes: &[u8]) -> Value {
                     }
                 }
             }
-            let toks = split_tokens(l);
+            let toks = split_tokens(l, true);
             out.push(json!({
                 "s": toks.iter().map(|t| lossy(t)).collect::<Vec<_>>(),
                 "i": toks.iter().map(|t| tok_int(t)).collect::<Vec<_>>(),
@@ -282,7 +286,10 @@ fn panic_class(msg: &str) -> String {
 fn io_res<T>(r: &Result<std::io::Result<T>, String>) -> Value {
     match r {
         Ok(Ok(_)) => res_c("ok"),
-        Ok(Err(e)) => json!({"c": "err", "kind": format!("{:?}", e.kind()), "msg": e.to_string()}),
+        Ok(Err(e)) => {
+            let msg = e.to_string();
+            json!({"c": "err", "kind": format!("{:?}", e.kind()), "ec": panic_class(&msg), "msg": msg})
+        }
         Err(p) => json!({"c": "panic", "msg": p, "pc": panic_class(p)}),
     }
 }
@@ -612,8 +619,8 @@ fn var_names(rng: &mut Rng, n: usize, scheme: usize) -> Vec<String> {
         4 => (0..n)
             .map(|i| match i % 3 {
                 0 => String::new(),
-                1 => format!("_x{}", i - 1),
-                _ => format!("__x{}", (i + 1) % n.max(1)),
+                1 => format!("__x{}", i - 1),
+                _ => format!("_x{}", (i + 1) % n.max(1)),
             })
             .collect(),
         // duplicates after sanitising
@@ -689,13 +696,16 @@ where
 
     // part 1: subsets of the 256 three-variable functions under all 6 orders
     let per_order = args.num("per_order", if thorough { 60 } else { 10 }) as usize;
-    for (oi, ord) in permutations(3).iter().enumerate() {
-        for rep in 0..(if thorough { 2 } else { 1 }) {
+    let perms3 = permutations(3);
+    for si in 0..(if thorough { 16 } else { 8 }) {
+        {
+            let oi = (si + seed as usize) % 6;
+            let ord = &perms3[oi];
             let mut s: Session<F> = Session::new_tagged(&mut out, 4096, 64, 1, "rt3");
             s.add_vars(3);
-            let names = var_names(&mut rng, 3, oi + rep * 3 + seed as usize);
+            let names = var_names(&mut rng, 3, si);
             set_names(&mut s, &names);
-            let before = !F::REORDER_LIVE_OK || (oi + rep) % 2 == 0;
+            let before = !F::REORDER_LIVE_OK || (si / 2) % 2 == 0;
             if before {
                 s.reorder(ord);
             }
@@ -878,6 +888,19 @@ fn mutations(base: &[u8], rng: &mut Rng, thorough: bool, binary: bool) -> Vec<(V
             sw.extend_from_slice(line(k));
             sw.extend_from_slice(&base[b2..]);
             out.push((json!({"m":"swap_lines","line":k}), sw));
+        }
+    }
+    // counts that no file can back
+    for key in [&b".nnodes "[..], &b".nroots "[..]] {
+        if let Some(p) = base.windows(key.len()).position(|w| w == key) {
+            let a = p + key.len();
+            let b = a + base[a..].iter().position(|&c| c == b'\n').unwrap_or(0);
+            for huge in ["4611686018427387904", "18446744073709551615", "99999999999999999999999"] {
+                let mut m = base[..a].to_vec();
+                m.extend_from_slice(huge.as_bytes());
+                m.extend_from_slice(&base[b..]);
+                out.push((json!({"m":"huge","key":lossy(key),"to":huge}), m));
+            }
         }
     }
     // a few double mutations
